@@ -20,3 +20,24 @@ func H_C16_date(p int, spare int) {
 	vAssert("caller-bytes-untouched", string(buf[:p]) == snap)
 	vReach("basic", f == FormatBasic)
 }
+
+// years whose text is longer than the usual ten characters, with spare capacity just below, at and above what the
+// text needs (a formatter that sizes its scratch space for "2006-01-02" goes wrong exactly there)
+//
+//verif:harness C16 quick p=2..2 spare=9..12
+//verif:harness C16 thorough p=0..1 spare=9..12
+func H_C16_dateLongYear(p int, spare int) {
+	prefix := vBytes("prefix", p)
+	buf := make([]byte, p, p+spare)
+	copy(buf, prefix)
+	snap := string(prefix)
+	d, _, _, _ := symDate("d", 10000, 99999)
+	f := Format(vU8("f") & 1)
+	r, err := DefaultFormatter(buf, d, f)
+	base, _ := DefaultFormatter(nil, d, f)
+	vAssert("no-error", err == nil)
+	vAssert("prefix-kept", len(r) >= p && string(r[:p]) == snap)
+	vAssert("suffix-is-plain-output", len(r) >= p && string(r[p:]) == string(base))
+	vAssert("caller-bytes-untouched", string(buf[:p]) == snap)
+	vReach("extended", f == 0)
+}
